@@ -85,7 +85,8 @@ class C07(Check):
             bursts, meta = air.generated_data_tx(w, rate, conf, n, w.choice([0, 1, 2, 3, 16]), cc,
                                                  w.choice([air.SAPIdentifier.ShortData, air.SAPIdentifier.UDP_IP_compression, air.SAPIdentifier.IP_PacketData]),
                                                  w.choice(["random", "zero", "ff", "counter", "runs"]), dst=77)
-            return {"knobs": {"terminals": [77], "entropy_seed": k.getrandbits(32), "second_observer": False},
+            return {"knobs": {"terminals": [77], "entropy_seed": k.getrandbits(32), "second_observer": False, "parse_ahead": k.random() < 0.3,
+                              "inline_observers": k.random() < 0.25},
                     "ops": [{"kind": "data", "term": 77, "ts": w.choice([1, 2]), "bursts": [[b.hex(), bt, tag] for b, bt, tag in bursts], "meta": meta}], "schedule": []}
         terms = [77] if k.random() < 0.6 else [77, 1234]
         ntx = k.choice([1, 2, 3, 4, 5, 6, 8, 10])
@@ -125,7 +126,8 @@ class C07(Check):
             schedule = []
             while len(schedule) < total:
                 schedule += [s.randrange(4)] * s.randrange(1, 12)
-        case = {"knobs": {"terminals": terms, "entropy_seed": k.getrandbits(32), "second_observer": False}, "ops": ops, "schedule": schedule}
+        case = {"knobs": {"terminals": terms, "entropy_seed": k.getrandbits(32), "second_observer": False, "parse_ahead": k.random() < 0.3,
+                          "inline_observers": k.random() < 0.25}, "ops": ops, "schedule": schedule}
         if k.random() < 0.2:
             from checks import c19
 
@@ -143,6 +145,9 @@ class C07(Check):
             yield {kk: v for kk, v in case.items() if kk != "cotenant"}
         if case.get("schedule"):
             yield dict(case, schedule=[])
+        for kk in ("parse_ahead", "inline_observers"):
+            if case["knobs"].get(kk):
+                yield dict(case, knobs=dict(case["knobs"], **{kk: False}))
 
     def execute(self, case):
         res = core.RunResult()
@@ -161,7 +166,7 @@ class C07(Check):
             if op.get("gen_error"):
                 m = op["meta"]
                 res.violate("C07.generator-raises", f"{m['rate']}/{'conf' if m['conf'] else 'unconf'}/{m.get('fmt', 'data')}",
-                            f"generate_full_data_transmission raised {op['gen_error']} for n={m['n']} preambles={m['preambles']} sap={m['sap']}", at=i)
+                            f"generate_full_data_transmission failed: {op['gen_error']} for n={m['n']} preambles={m['preambles']} sap={m['sap']}", at=i)
                 continue
             sk = (op["term"], op["ts"])
             if sk not in queues:
@@ -177,6 +182,11 @@ class C07(Check):
         si = 0
         rr = 0
         nb_total = 0
+        ahead = None
+        if case["knobs"].get("parse_ahead"):
+            # the application parses everything it received first (a list of Burst objects, all alive at the same time) and processes it afterwards
+            ahead = {(i, bi): rx.parse(bytes.fromhex(hx), bt) for i, op in enumerate(case["ops"]) if not op.get("gen_error") for bi, (hx, bt, _t) in enumerate(op["bursts"])}
+            res.fault("parsed_ahead_of_processing", len(ahead))
         while True:
             live = [sk for sk in keys if pos[sk][0] < len(queues[sk])]
             if not live:
@@ -190,7 +200,7 @@ class C07(Check):
             qi, bi = pos[sk]
             op_i, op = queues[sk][qi]
             hexdata, bt, tag = op["bursts"][bi]
-            r = rx.feed(op["term"], op["ts"], bytes.fromhex(hexdata), bt, op_i)
+            r = rx.feed(op["term"], op["ts"], bytes.fromhex(hexdata), bt, op_i, parsed=False if ahead is None else ahead[(op_i, bi)])
             nb_total += 1
             if r is None:
                 res.violate("C07.parse", op["kind"], f"burst {bi} ({tag}) of transmission {op_i} built by the library does not parse", at=op_i)
@@ -320,7 +330,8 @@ class C08(Check):
         air._imports()
         w, k, s, f = streams["work"], streams["knobs"], streams["sched"], streams["fault"]
         terms = [77] if k.random() < 0.6 else [77, 1234]
-        knobs = {"terminals": terms, "entropy_seed": k.getrandbits(32), "second_observer": True}
+        knobs = {"terminals": terms, "entropy_seed": k.getrandbits(32), "second_observer": True, "reuse_parsed": k.random() < 0.3,
+                 "inline_observers": k.random() < 0.25}
         rates = {}
         if arm == "faults":
             if f.random() > 0.1:
@@ -335,9 +346,9 @@ class C08(Check):
         scale = k.random() < 0.01
         if scale:
             # scale runs: a watcher that has seen hundreds of terminals, and hundreds of transmissions in one process
-            terms = [77] + [1000 + 7 * i for i in range(k.choice([130, 300]))]
+            terms = [77] + [1000 + 7 * i for i in range(k.choice([130, 600, 1100]))]
             knobs["terminals"] = terms
-            ntx = k.choice([300, 500])
+            ntx = len(terms) + 150
         long_voice = k.random() < 0.02
         # size-boundary runs: data transmissions as long as the air interface allows (8-bit preamble count, 7-bit blocks-to-follow)
         long_data = k.random() < 0.04
@@ -349,10 +360,14 @@ class C08(Check):
                "lone": k.choice([0, 1, 2, 3])}
         if sum(mix.values()) == 0:
             mix["lone"] = 1
+        if scale:
+            mix = {"voice": 1, "voice_noterm": 1, "gen_data": 1, "hand_data": 1, "lone": 8}  # mostly single bursts: many terminals, little air time
         slot_streams = {}
         rx = None
         for txi in range(ntx):
             term, ts = w.choice(terms), w.choice([1, 1, 2])
+            if scale and w.random() < 0.3:
+                term = w.choice(terms[:5])  # a few busy terminals (the first ones the watcher met) among the many
             cc = w.randrange(16)
             kind = w.choices(list(mix), list(mix.values()))[0]
             if wrap_total:
@@ -470,6 +485,9 @@ class C08(Check):
             yield {kk: v for kk, v in case.items() if kk != "cotenant"}
         if kn.get("raising_observer"):
             yield dict(case, knobs={kk: v for kk, v in kn.items() if kk != "raising_observer"})
+        for kk in ("reuse_parsed", "inline_observers"):
+            if kn.get(kk):
+                yield dict(case, knobs=dict(kn, **{kk: False}))
         if len(kn.get("terminals", [])) > 1:
             ops = [dict(o, term=kn["terminals"][0]) if o["kind"] == "burst" else o for o in case["ops"]]
             yield dict(case, ops=ops, knobs=dict(kn, terminals=kn["terminals"][:1]))
